@@ -325,6 +325,12 @@ class RendererHTML(RendererProtocol):
     ) -> str:
         return escapeHtml(tokens[idx].content)
 
+    def definition(
+        self, tokens: Sequence[Token], idx: int, options: OptionsDict, env: EnvType
+    ) -> str:
+        """Reference definitions (``inline_definitions`` option) have no output."""
+        return ""
+
     def html_block(
         self, tokens: Sequence[Token], idx: int, options: OptionsDict, env: EnvType
     ) -> str:
